@@ -27,8 +27,10 @@ def break_between(out):
     return any(any(se < b <= sx for b in breaks) for (j, sx, i, se) in out["pairs"])
 
 
-def build(sc, out, deterministic=False):
-    """Model, input databox and plan of one scenario."""
+def build(sc, out, deterministic=False, edited=False):
+    """Model, input databox and plan of one scenario.  edited: the plan is first given one (target, instrument) pair too many, on a date it
+    does not use, which is then taken out again (status=False) - the plan means what it finally registers; the input databox keeps a
+    stale value of the variable and of the shock on that date."""
     mode = sc["mode"]
     dev = bool(sc["dev"])
     logv = set(out["logv"])
@@ -44,6 +46,23 @@ def build(sc, out, deterministic=False):
             db[n][per(k)] = float(fr(out["uin"][k - 1][j]))
             db["ant_" + n][per(k)] = float(fr(out["ain"][k - 1][j]))
     plan = ir.SimulationPlan(m, span)
+    if edited:
+        used = {p[1] for p in out["pairs"]} | {p[3] for p in out["pairs"]}
+        free = [k for k in range(1, TN + 1) if k not in used]
+        if free:
+            k = free[-1]
+            var, shock = out["vars"][0], out["shocks"][0]
+            if mode == "ant":
+                plan.exogenize_anticipated([per(k)], var)
+                plan.endogenize_anticipated([per(k)], "ant_" + shock)
+                plan.exogenize_anticipated([per(k)], var, status=False)
+                plan.endogenize_anticipated([per(k)], "ant_" + shock, status=False)
+            else:
+                plan.exogenize_unanticipated([per(k)], var)
+                plan.endogenize_unanticipated([per(k)], shock)
+                plan.exogenize_unanticipated([per(k)], var, status=False)
+                plan.endogenize_unanticipated([per(k)], shock, status=False)
+            db[var][per(k)] = 99.0          # stale: not a target any more
     for (j, sx, i, se) in out["pairs"]:
         var, shock = out["vars"][j - 1], out["shocks"][i - 1]
         db[var][per(sx)] = level_of(var, logv, fr(pathx[sx][j - 1]), dev)
@@ -95,19 +114,20 @@ def describe(sc, out, method):
         sc["id"], method, _plain(out["pairs"]), sc["mode"], _plain(sc["prior"]), sc["dev"], _plain(sc["init"]), sorted(sc["u"]), sorted(sc["a"]))
 
 
-def check(chk, sc, out, method, split=False, deterministic=False):
+def check(chk, sc, out, method, split=False, deterministic=False, edited=False):
     payload = {"kind": "plan", "sc": _plain(sc), "pairs": _plain(out["pairs"]), "src": list(out["src"])}
     mode = sc["mode"]
-    tag = "plan:%s:%s:%s" % (method + ("/split-frames" if split else "") + ("/deterministic" if deterministic else ""), mode, sc["id"])
+    tag = "plan:%s:%s:%s" % (method + ("/split-frames" if split else "") + ("/deterministic" if deterministic else "") + ("/edited-plan" if edited else ""), mode, sc["id"])
     if method == "stacked_time" and mode == "unant" and any(p[1] != p[3] for p in out["pairs"]):
         # known finding: the stacked-time simulator honours an unanticipated target only in the first period of a frame
         tag = "plan:stacked_time:unant:instrument-date-differs-from-target-date"
     if split and mode == "unant" and break_between(out):
         # known finding: frame by frame, an unanticipated target cannot be reached by an instrument of an earlier frame
         tag = "plan:first_order/split-frames:unant:frame-break-between-instrument-and-target"
-    desc = describe(sc, out, method + (" with force_split_frames=True" if split else "") + (" on the model created with deterministic=True" if deterministic else ""))
+    desc = describe(sc, out, method + (" with force_split_frames=True" if split else "") + (" on the model created with deterministic=True" if deterministic else "") +
+                    (" with a plan that had a further pair registered and taken out again (status=False)" if edited else ""))
     try:
-        m, db, plan, span = build(sc, out, deterministic=deterministic)
+        m, db, plan, span = build(sc, out, deterministic=deterministic, edited=edited)
         kw = {"method": method, "plan": plan, "deviation": bool(sc["dev"])}
         if method == "stacked_time":
             kw["solver_settings"] = {"step_tolerance": 1e6}
@@ -151,7 +171,7 @@ def run(chk):
     dump = chk.scratch.file("plans.dump")
     r = tlc.must_pass(tlc.run("PlansMC", "PlansMC.thorough.cfg" if chk.tier == "thorough" else "PlansMC.cfg", chk.scratch, dump=dump, timeout=7200), "PlansMC")
     chk.add_tlc(r, "PlansMC")
-    n = skipped = ndet = 0
+    n = skipped = ndet = nedit = nsc = 0
     groups = {}
     for st in tlaval.parse_dump(dump, want=lambda b: "fin = TRUE" in b):
         sc, out = st["sc"], st["out"]
@@ -160,14 +180,24 @@ def run(chk):
             continue
         if out["recovered"] != out["truth"]:
             raise MachineryError("PlansMC: swap law false in dump")
+        nsc += 1
         check(chk, sc, out, "first_order")
-        check(chk, sc, out, "first_order", split=True)
-        n += 2
-        if chk.tier == "thorough" or n % 3 == 0:
+        n += 1
+        if chk.tier == "thorough" or nsc % 2 == 0:
+            check(chk, sc, out, "first_order", split=True)
+            n += 1
+        if chk.tier == "thorough" or nsc % 6 == 0:
             # the same model declared deterministic (no std parameters: shocks are add-factors); the meaning of a plan is unchanged
             check(chk, sc, out, "first_order", deterministic=True)
             n += 1
             ndet += 1
+        if chk.tier == "thorough" or nsc % 6 == 3:
+            check(chk, sc, out, "first_order", edited=True)
+            if not sc["dev"] and not (sc["mode"] == "unant" and any(p[1] != p[3] for p in out["pairs"])):
+                check(chk, sc, out, "stacked_time", edited=True)
+                n += 1
+            n += 1
+            nedit += 1
         groups.setdefault((sc["id"], sc["mode"], sc["dev"], repr(_plain(out["pairs"]))), []).append((sc, out))
         if not sc["dev"]:                       # stacked time has no deviation mode
             check(chk, sc, out, "stacked_time")
@@ -193,6 +223,9 @@ def run(chk):
         raise MachineryError("PlansMC: no pair of scenarios for the two-variant databox")
     chk.notes["two_data_variant_planned_simulations"] = nv
     chk.notes["planned_simulations_on_deterministic_models"] = ndet
+    chk.notes["scenarios_with_an_edited_plan"] = nedit
+    if not nedit or not ndet:
+        raise MachineryError("PlansMC: no scenario was run with an edited plan / on a deterministic model")
     chk.replayed += n + nv
     chk.no_claim += skipped
     chk.notes["singular_patterns_excluded"] = skipped
